@@ -83,6 +83,21 @@ on the same tree left; MANIFEST entries of A match the bytes of the file they na
 and carry the same hash names as B's; A verifies.  Nothing is demanded of the full update itself (which hashes
 it records, whether it compresses): that is observed and only used for the vacuity guards.
 
+Family 'multi' (several trees in one invocation).  ``gemato update`` takes any number of paths; the statement's
+"previous TIMESTAMP" is the one of the Manifest being updated, whatever else the same command line names.  Two
+replica sets of two trees each (tree #2 has other names and contents than tree #1, same layout): A1, A2 are only
+ever updated by one ``gemato update --incremental -H SHA1 A1 A2``, B1, B2 by one ``gemato update -H SHA1 B1 B2``.
+The two trees are created (one ``create -t`` each) 50 s apart, so that their TIMESTAMPs differ - the first-listed
+tree is the older one ('old_first') or the newer one ('new_first').  A round is one slot-file operation of family
+hist on tree #1 or on tree #2 (of both sets) with an mtime class {T-1 s, T, T+0.5 s, T+1 s} taken relative to the
+edited tree's own TIMESTAMP or relative to the *other* tree's TIMESTAMP (which puts mtimes between the two
+TIMESTAMPs), then the two invocations at T0 + 100 r.  Quick: one-round histories in the three zones and both
+layouts; thorough: two-round histories in UTC (after round 1 the trees that had something to record carry a
+fresh TIMESTAMP, the others their old one), one round elsewhere (MULTI_PLAN).  Oracle unchanged, per tree: the
+premise is read off the edited tree's snapshots against *its own* previous TIMESTAMP; MUST -> that tree's
+Manifests in A equal those in B, A verifies; the tree that was not edited is always MUST; every TIMESTAMP
+written is not later than the scan start (the clock stands still during an invocation).
+
 Family 'inflight' (the *schedule* quantifier).  While an update (incremental or full) is
 running, right after the k-th call of ``update_entry_for_path`` on a regular file has returned
 (k = 0: right after the start time has been taken), file j is rewritten (same size /
@@ -170,6 +185,14 @@ RULE = ('hist: {UTC, XXX-3, XXX5} x {flat, nested layout} x {(clock mono, scan s
         'quick H; create with -H SHA1; the tree has an additional directory holding only a Manifest with one DIST '
         'line; verdict from the premise on tree snapshots (always MUST by construction); comparison as in hist, '
         'hash names of MANIFEST entries included. '
+        'multi: {flat, nested} x {first-listed tree has the older, the newer TIMESTAMP (trees created 50 s apart)} x '
+        'every history of R rounds (quick: R=1 in UTC, XXX-3, XXX5; thorough: R=2 in UTC, R=1 in the other zones) of '
+        'one applicable operation {modify_same_size, modify_other_size, touch, replace_equal} x slot x tree {#1, #2 '
+        'of the command line} x mtime class {T-1, T, T+0.5, T+1} x {T = the edited tree\'s own previous TIMESTAMP, '
+        'T = the other tree\'s} | add x absent slot x tree x the same 8 mtimes | delete x slot x tree, followed by ONE '
+        '`update --incremental A1 A2` and ONE `update B1 B2` at T0+100*round; per tree: verdict from the premise on '
+        'tree snapshots against that tree\'s own previous TIMESTAMP, comparison as in hist (the untouched tree is '
+        'always MUST); non-trivial = some tree judged MUST. '
         'inflight: the hist configurations with the monotonic clock x running update {incremental, full} x {no other '
         'pending change, another file changed beforehand} x file slot j x k in 0..K (K = number of '
         'update_entry_for_path calls on regular files that returned during a dry run of the same update without an '
@@ -177,8 +200,18 @@ RULE = ('hist: {UTC, XXX-3, XXX5} x {flat, nested layout} x {(clock mono, scan s
         '+0.5 s, +2 s}, then incremental + full update 100 s later')
 ASSUMPTIONS = [
     'the clock is owned by replacing the name `datetime` inside gemato.cli with a stand-in module whose '
-    'datetime.utcnow()/now() return the harness instant; it never advances on its own (only the in-flight hook '
-    'and the harness move it); every update must consult it exactly once (checked)',
+    'datetime.utcnow()/now() return the harness instant and - where gemato.cli holds the module `time` (or the '
+    'function time.time) under the name `time` - that name with a stand-in whose time()/time_ns()/argument-less '
+    'gmtime()/localtime() return the same instant (both spellings of the wall clock share one call counter and '
+    'the in-flight k=0 callback; timeit / monotonic clocks measure durations and stay real); the clock never '
+    'advances on its own (only the in-flight hook and the harness move it); every update of one tree must consult '
+    'it exactly once, an invocation over n trees between once and n times (checked); any other route to the real '
+    'clock shows up as the clock_seam_mismatch harness error',
+    'family multi: both trees of an invocation share the scan start (the fake clock stands still); tree #2 is '
+    'built with the seed rotated by one (other names / contents); creates are one invocation per tree (the '
+    'TIMESTAMPs must differ); more than two trees, trees nested in each other, the same tree listed twice, '
+    'a failing first tree and options other than -H SHA1 are not explored; after a round in which a tree of A '
+    'differs from B (violation or DONT_CARE) or carries another TIMESTAMP, that tree continues as a copy of B\'s',
     'file mtimes are set explicitly (os.utime ns=) after every write; a Manifest that an update (re)wrote gets '
     'mtime = scan start + 1 s; "an update wrote the Manifest" is observed as changed bytes or a changed '
     'st_mtime_ns (gemato writes in place, which stamps the real wall clock, decades away from the fake one)',
@@ -293,6 +326,15 @@ OPT_TREE_OPS = ('none', 'touch', 'modify_same_size', 'modify_other_size', 'delet
                 'mani_appear')
 HASH_RELATIONS = ('same', 'superset', 'subset', 'disjoint', 'overlap')
 
+# family 'multi': one invocation over two trees whose previous TIMESTAMPs differ
+GAP = 50                         # seconds between the creation instants (= first TIMESTAMPs) of the two trees
+ORDERS = ('old_first', 'new_first')      # which of the two trees is listed first on the command line
+MULTI_REFS = ('own', 'oth')      # an mtime class is taken relative to the tree's own / to the other tree's TIMESTAMP
+MULTI_MCS = tuple(f'{ref}:{mc}' for ref in MULTI_REFS for mc in MCLASSES)
+# tier -> [(time zone, rounds per history)]
+MULTI_PLAN = {'quick': [('utc', 1), ('east', 1), ('west', 1)],
+              'thorough': [('utc', 2), ('east', 1), ('west', 1)]}
+
 _FILES = ['a', 'b c', 'ü', 'q.x', 'ab']
 _DIRS = ['d', 'e f', 'dé', 'sub']
 _PKGS = ['pkg', 'v n', 'pä', 'new.d']
@@ -352,12 +394,56 @@ _FAKE_MODULE.__dict__.update({k: v for k, v in vars(_dt).items() if not k.starts
 _FAKE_MODULE.datetime = _FakeDatetime
 
 
+def _consult():
+    """One look at the wall clock through a name of gemato.cli other than datetime: same instant, same
+    bookkeeping (call count, in-flight callback) as _FakeDatetime.utcnow()."""
+    CLOCK.calls += 1
+    us = CLOCK.us
+    cb = CLOCK.on_utcnow
+    if cb is not None:
+        cb()
+    return us
+
+
+def _fake_time():
+    return _consult() / 1e6
+
+
+def _fake_time_ns():
+    return _consult() * 1000
+
+
+def _fake_gmtime(secs=None):
+    return time.gmtime(_consult() // 10 ** 6 if secs is None else secs)
+
+
+def _fake_localtime(secs=None):
+    return time.localtime(_consult() // 10 ** 6 if secs is None else secs)
+
+
+# stand-in for the module `time` (the epoch-seconds spelling of the same wall clock); monotonic / perf_counter
+# (elapsed-time measurement) stay real
+_FAKE_TIME_MODULE = types.ModuleType('time')
+_FAKE_TIME_MODULE.__dict__.update({k: v for k, v in vars(time).items() if not k.startswith('__')})
+_FAKE_TIME_MODULE.time = _fake_time
+_FAKE_TIME_MODULE.time_ns = _fake_time_ns
+_FAKE_TIME_MODULE.gmtime = _fake_gmtime
+_FAKE_TIME_MODULE.localtime = _fake_localtime
+
+
 @contextlib.contextmanager
 def harness_env(tz):
     """Own gemato.cli's clock and the process time zone for the duration of the block."""
     old_mod = gemato.cli.datetime
     old_tz = os.environ.get('TZ')
     gemato.cli.datetime = _FAKE_MODULE
+    # the wall clock has a second spelling, time.time(): wherever gemato.cli holds the module `time` (or the
+    # function) under its usual name it gets the same harness instant
+    old_time = vars(gemato.cli).get('time')
+    if old_time is time:
+        gemato.cli.time = _FAKE_TIME_MODULE
+    elif old_time is time.time:
+        gemato.cli.time = _fake_time
     os.environ['TZ'] = TZS[tz][0]
     time.tzset()
     try:
@@ -367,6 +453,8 @@ def harness_env(tz):
         yield
     finally:
         gemato.cli.datetime = old_mod
+        if old_time is not None:
+            gemato.cli.time = old_time
         if old_tz is None:
             os.environ.pop('TZ', None)
         else:
@@ -749,13 +837,22 @@ class Run:
         tolerate: a failing command is not reported here (the caller judges it).
         opt: the options of the command (family 'opts', see opt_split); None: ``-H SHA1`` alone.
         -> (ok, observation)"""
-        before = read_manifests(d)
-        mt_before = {p: os.stat(os.path.join(d, p)).st_mtime_ns for p in before}
-        ts_before = parsed(before)[1] if before.get('Manifest') else None
+        ok, r, lasts = self.update_many([d], mode, start_us, what, tolerate=tolerate, opt=opt)
+        if ok:
+            self.last = lasts[0]
+        return ok, r
+
+    def update_many(self, ds, mode, start_us, what, tolerate=False, opt=None):
+        """One invocation of the command over the trees ds (in that order on the command line).  The fake clock
+        stands still during the invocation, so start_us is the scan start of every tree; the TIMESTAMP check and
+        the re-stamping of rewritten Manifests are made per tree.
+        -> (ok, observation, [facts per tree as in self.last])"""
+        befores = [read_manifests(d) for d in ds]
+        mt_befores = [{p: os.stat(os.path.join(d, p)).st_mtime_ns for p in before} for d, before in zip(ds, befores)]
         argv = {'create': ['create', '-t'], 'incr': ['update', '--incremental'], 'full': ['update']}[mode]
         CLOCK.us = start_us
         calls0 = CLOCK.calls
-        r = self.cli(argv + opt_argv(opt) + [d])
+        r = self.cli(argv + opt_argv(opt) + list(ds))
         self.stats.transitions += 1
         self.stats.outcomes[f'{mode}/{gem.brief(r)}'] += 1
         ok = r['kind'] == 'ret' and r['value'] == 0
@@ -763,9 +860,20 @@ class Run:
             self.last = {'argv': argv, 'opt_argv': opt_argv(opt) if opt is not None else []}
             if not tolerate:
                 self.report_failed(mode, r, what)
-            return False, r
-        if CLOCK.calls != calls0 + 1:
-            raise HarnessError(f'clock seam: {mode} consulted the fake clock {CLOCK.calls - calls0} times')
+            return False, r, None
+        n = CLOCK.calls - calls0
+        # one tree: exactly one look at the clock; several trees: at least one (one scan start for the whole
+        # invocation is as good as one per tree - the clock does not move) and at most one per tree
+        if not (n == 1 if len(ds) == 1 else 1 <= n <= len(ds)):
+            raise HarnessError(f'clock seam: {mode} over {len(ds)} tree(s) consulted the fake clock {n} times')
+        lasts = []
+        for i, (d, before, mt_before) in enumerate(zip(ds, befores, mt_befores)):
+            w = what if len(ds) == 1 else f'{what} [tree #{i + 1} of the invocation]'
+            lasts.append(self._judge_timestamp(d, before, mt_before, mode, start_us, w))
+        return True, r, lasts
+
+    def _judge_timestamp(self, d, before, mt_before, mode, start_us, what):
+        ts_before = parsed(before)[1] if before.get('Manifest') else None
         after = read_manifests(d)
         written = set()
         for p, b in after.items():
@@ -800,9 +908,8 @@ class Run:
         else:
             self.stats.counters['timestamp_refreshed' if ts_after == start_us // 10 ** 6
                                 else 'timestamp_kept'] += 1
-        self.last = {'top_written': top_written, 'stepback': stepback, 'ts_before': ts_before,
-                     'ts_after': ts_after, 'ts_model': ts_model}
-        return True, r
+        return {'top_written': top_written, 'stepback': stepback, 'ts_before': ts_before,
+                'ts_after': ts_after, 'ts_model': ts_model}
 
 
 def new_content(old, op, slot, seed):
@@ -1396,7 +1503,9 @@ def start_history(run, root):
     ma, mb = read_manifests(A), read_manifests(B)
     if ma != mb or len(ma) != 1 + (cfg['layout'] == 'nested') + (cfg.get('alpha', 'files') == 'opts'):
         raise HarnessError(f'replicas differ after create or layout not as intended: {sorted(ma)}')
-    run.h = {'ts_model': parsed(ma)[1], 'diverged': False, 'stale': None, 'hashes': HASH}
+    # model TIMESTAMP: what create wrote, or - when that was reported as later than the scan start - the scan start
+    run.h = {'ts_model': run.last['ts_model'], 'diverged': run.last['ts_model'] != parsed(ma)[1], 'stale': None,
+             'hashes': HASH}
     if run.h['ts_model'] != T0:
         raise HarnessError(f'TIMESTAMP after create is {run.h["ts_model"]}')
     return A, B
@@ -1484,6 +1593,269 @@ def replay_hist(case, scratch):
             if not play_round(run, A, B, ch, rnd, history):
                 break
     return run.vio
+
+
+# ------------------------------------------------------------------ family 'multi'
+
+def multi_tree_cfg(cfg, t):
+    """Tree #t of an invocation has its own names and contents (seed rotation), the same layout."""
+    return dict(cfg, seed=cfg['seed'] + t, alpha='files')
+
+
+def multi_created_at(order, t):
+    return T0 + (GAP if (t == 1) == (order == 'old_first') else 0)
+
+
+def multi_choices(dirs, cfg):
+    """Applicable operations: the slot-file operations of family hist on tree #t (t = position on the command
+    line), with the mtime classes taken relative to that tree's own and relative to the other tree's TIMESTAMP."""
+    out = []
+    for t, d in enumerate(dirs):
+        tcfg = multi_tree_cfg(cfg, t)
+        for s, rel in enumerate(slot_paths(tcfg['seed'])):
+            p = os.path.join(d, rel)
+            if os.path.exists(p):
+                for op in EXISTING_OPS:
+                    if op == 'modify_same_size' and os.path.getsize(p) == 0:
+                        continue
+                    for mc in MULTI_MCS:
+                        out.append((op, s, mc, t))
+                out.append(('delete', s, None, t))
+            else:
+                for mc in MULTI_MCS:
+                    out.append(('add', s, mc, t))
+    return out
+
+
+def multi_initial_choices():
+    out = []
+    for t in (0, 1):
+        for s in (0, 1):
+            for op in EXISTING_OPS:
+                for mc in MULTI_MCS:
+                    out.append((op, s, mc, t))
+            out.append(('delete', s, None, t))
+        for mc in MULTI_MCS:
+            out.append(('add', 2, mc, t))
+    return out
+
+
+def multi_case(cfg, history):
+    return {'family': 'multi', 'tz': cfg['tz'], 'layout': cfg['layout'], 'order': cfg['order'], 'seed': cfg['seed'],
+            'rounds': [list(c) for c in history]}
+
+
+def start_multi(run, root):
+    """Two trees per replica set: A0, A1 (updated incrementally, one invocation over both), B0, B1 (full update,
+    one invocation over both).  Tree #t is created (one tree per invocation) at multi_created_at(order, t).
+    -> ([A0, A1], [B0, B1]) or None"""
+    cfg = run.cfg
+    wipe(root)
+    As, Bs = [os.path.join(root, f'A{t}') for t in (0, 1)], [os.path.join(root, f'B{t}') for t in (0, 1)]
+    ts = []
+    for t in (0, 1):
+        tcfg = multi_tree_cfg(cfg, t)
+        at = multi_created_at(cfg['order'], t)
+        for d in (As[t], Bs[t]):
+            build_tree(d, tcfg, 2)
+            ok, _r = run.update(d, 'create', at * 10 ** 6, f'create tz={cfg["tz"]} (multi, tree #{t + 1})')
+            if not ok:
+                return None
+            if not run.verify(d)[0]:
+                raise HarnessError('created tree does not verify')
+        if read_manifests(As[t]) != read_manifests(Bs[t]):
+            raise HarnessError('replicas differ after create')
+        if run.last['ts_model'] != at:
+            raise HarnessError(f'TIMESTAMP after create at {at} is {run.last["ts_model"]}')
+        ts.append(run.last['ts_model'])
+    run.h = {'ts': ts}
+    return As, Bs
+
+
+def play_multi_round(run, As, Bs, choice, rnd, history):
+    """One round: one operation on tree #t of both replica sets, then `update --incremental A0 A1` and
+    `update B0 B1`.  -> False when the history cannot be continued."""
+    cfg, stats = run.cfg, run.stats
+    op, slot, mc, t = choice
+    run.rnd = rnd
+    ts_prev = list(run.h['ts'])
+    ref, cls = mc.split(':') if mc is not None else (None, None)
+    ts_ref = ts_prev[t if ref != 'oth' else 1 - t]
+    tcfg = multi_tree_cfg(cfg, t)
+    start_us = (T0 + STEP * rnd) * 10 ** 6
+    before = snapshot(As[t])
+    ns = apply_op(As[t], tcfg, (op, slot, cls), ts_ref)
+    apply_op(Bs[t], tcfg, (op, slot, cls), ts_ref)
+    verdict, reason = premise(before, snapshot(As[t]), ts_prev[t])
+    listed = ('older' if ts_prev[0] < ts_prev[1] else 'newer' if ts_prev[0] > ts_prev[1] else 'equal')
+    what = (f'multi: history {history} tz={cfg["tz"]} layout={cfg["layout"]} order={cfg["order"]} round {rnd}: one '
+            f'invocation over two trees with previous TIMESTAMPs {ts_prev[0]} (listed first) and {ts_prev[1]}')
+    stats.evaluations += 1
+    ok_a, _ra, la = run.update_many(As, 'incr', start_us, what)
+    ok_b, _rb, lb = run.update_many(Bs, 'full', start_us, what)
+    stats.counters[f'multi/round:{op}:{mc}'] += 1
+    stats.counters[f'multi/tz:{cfg["tz"]}'] += 1
+    stats.counters[f'multi/layout:{cfg["layout"]}'] += 1
+    stats.counters[f'multi/order:{cfg["order"]}'] += 1
+    stats.counters[f'multi/edited_tree_is_listed:{"first" if t == 0 else "second"}'] += 1
+    stats.counters[f'multi/first_listed_tree_has_the_{listed}_timestamp'] += 1
+    if not (ok_a and ok_b):
+        return False
+    lo, hi = min(ts_prev) * 10 ** 9, max(ts_prev) * 10 ** 9
+    between = ns is not None and lo < ns < hi
+    if between and ts_prev[t] * 10 ** 9 == lo:
+        # dated after the edited tree's own TIMESTAMP and before the TIMESTAMP of the other tree of the invocation
+        stats.counters[f'multi/mtime_between_the_two_timestamps:{verdict}:{op}:edited_tree_listed_'
+                       + ('first' if t == 0 else 'second')] += 1
+    target = f'{op} on slot {slot} ({slot_paths(tcfg["seed"])[slot]!r}) of tree #{t + 1}'
+    when = '' if mc is None else (f' with mtime = {"its own" if ref == "own" else "the other tree\'s"} previous '
+                                  f'TIMESTAMP {ts_ref} {MC_NS[cls] / 1e9:+.1f} s')
+    all_equal = True
+    for i in (0, 1):
+        ea, _tsa, rawa, stale_a = parsed(read_manifests(As[i]))
+        eb, _tsb, _rawb, stale_b = parsed(read_manifests(Bs[i]))
+        vb, rvb = run.verify(Bs[i])
+        if not vb:
+            run.violation({'check': 'sanity_full_update_result_fails_verify', 'op': op, 'trees': 2},
+                          f'sanity: {what}: tree #{i + 1} of replica set B does not verify after a full update: '
+                          f'{rvb["log"][-2:]}')
+        stale_a = [p for p in stale_a if p not in stale_b]
+        equal = ea == eb and not stale_a
+        all_equal = all_equal and equal
+        # the tree that was not edited: nothing modified, the premise holds trivially
+        v, why = (verdict, reason) if i == t else ('must', None)
+        tag = 'edited' if i == t else 'untouched'
+        if v == 'must':
+            stats.compared += 1
+            stats.counters['multi/pre_true'] += 1
+            sig = {'check': 'incremental_differs_from_full', 'trees': 2, 'op': op if i == t else 'none',
+                   'mtime_class': sig_class(cls) if i == t else None,
+                   'relative_to': ref if i == t else None}
+            if not equal:
+                stats.outcomes[f'multi/must/differs/{tag}'] += 1
+                diffs = diff_paths(ea, eb) + [f'A: MANIFEST entry for {p} does not match the file, B: it does'
+                                              for p in stale_a]
+                run.violation(sig, f'incremental_differs_from_full: {what}: {target}{when}, TZ={TZS[cfg["tz"]][0]}: '
+                              f'tree #{i + 1} ({tag}; previous TIMESTAMP {ts_prev[i]}) after `update --incremental '
+                              f'<tree #1> <tree #2>` differs from the same tree after `update <tree #1> <tree #2>`: '
+                              f'{"; ".join(diffs)}')
+            else:
+                if snapshot(As[i]) == snapshot(Bs[i]):
+                    stats.counters['A_verify_implied_by_byte_identical_replicas'] += 1
+                    va, rva = vb, rvb
+                else:
+                    va, rva = run.verify(As[i])
+                if va:
+                    stats.outcomes[f'multi/must/equal/{tag}'] += 1
+                else:
+                    stats.outcomes['multi/must/equal_but_A_fails_verify'] += 1
+                    run.violation(dict(sig, check='incremental_result_fails_verify'),
+                                  f'incremental_result_fails_verify: {what}: {target}{when}: tree #{i + 1}: '
+                                  f'{rva["log"][-2:]}')
+        else:
+            stats.counters['multi/pre_false'] += 1
+            stats.dontcare[why] += 1
+            stats.outcomes[f'multi/dontcare/{"equal" if equal else "differs"}/{op}'] += 1
+        if not equal:
+            # continue from what the full update left (contents, TIMESTAMP, mtimes)
+            stats.counters['multi/resync_by_copy_of_B'] += 1
+            restore(As[i], snapshot(Bs[i]))
+        run.h['ts'][i] = lb[i]['ts_model']
+        if equal and la[i]['ts_model'] != lb[i]['ts_model']:
+            stats.counters['multi/equal_entries_but_other_timestamp_than_full_update'] += 1
+            restore(As[i], snapshot(Bs[i]))
+    return True
+
+
+def explore_multi(cfg, firsts, depth_max, stats, scratch):
+    """firsts: indices into multi_initial_choices() of the first rounds this shard plays (after one set of creates)."""
+    run = Run(cfg, stats, hoist_from_round=2)
+    root = fresh_root(scratch)
+    run.case = multi_case(cfg, [])
+    ab = start_multi(run, root)
+    for v in run.vio:
+        stats.violation(v['sig'], v['case'], v['message'])
+    run.vio = []
+    if ab is None:
+        return
+    As, Bs = ab
+
+    def rec(history):
+        rnd = len(history) + 1
+        chs = multi_choices(As, cfg)
+        if rnd == 1:
+            if chs != multi_initial_choices():
+                raise HarnessError('multi: initial choices differ from the static list')
+            chs = [chs[i] for i in firsts]
+        snap = ([snapshot(d) for d in As], [snapshot(d) for d in Bs], {'ts': list(run.h['ts'])})
+        for ch in chs:
+            for i in (0, 1):
+                restore(As[i], snap[0][i])
+                restore(Bs[i], snap[1][i])
+            run.h = {'ts': list(snap[2]['ts'])}
+            h = history + [ch]
+            run.case = multi_case(cfg, h)
+            n0 = stats.compared
+            cont = play_multi_round(run, As, Bs, ch, rnd, h)
+            stats.case(('multi', cfg['tz'], cfg['layout'], cfg['order'], tuple(h)), nontrivial=stats.compared > n0)
+            if len(stats.samples) < 1 and 0 in firsts and cfg['layout'] == 'nested':
+                stats.sample({'family': 'multi', 'config': cfg, 'history': h})
+            for v in run.vio:
+                stats.violation(v['sig'], v['case'], v['message'])
+            run.vio = []
+            if cont and rnd < depth_max:
+                rec(h)
+    rec([])
+
+
+def replay_multi(case, scratch):
+    cfg = {'tz': case['tz'], 'layout': case['layout'], 'frac': 0, 'seed': case['seed'], 'clock': 'mono',
+           'order': case['order']}
+    run = Run(cfg, None)
+    run.case = case
+    with harness_env(cfg['tz']):
+        ab = start_multi(run, fresh_root(scratch))
+        if ab is None:
+            return run.vio
+        As, Bs = ab
+        history = []
+        for rnd, ch in enumerate(case['rounds'], 1):
+            ch = tuple(ch)
+            if ch not in multi_choices(As, cfg):
+                raise HarnessError(f'replay: {ch} is not applicable in round {rnd}')
+            history.append(ch)
+            if not play_multi_round(run, As, Bs, ch, rnd, history):
+                break
+    return run.vio
+
+
+def finish_multi(total, tier):
+    """Vacuity guards of family 'multi'."""
+    errs = []
+    c = total.counters
+    for op in EXISTING_OPS + ('add',):
+        for mc in MULTI_MCS:
+            if not c.get(f'multi/round:{op}:{mc}'):
+                errs.append(f'vacuity: multi: no round with {op} x {mc}')
+    if not c.get('multi/round:delete:None'):
+        errs.append('vacuity: multi: no delete round')
+    for k in ([f'multi/tz:{tz}' for tz in TZS] + [f'multi/layout:{x}' for x in LAYOUTS]
+              + [f'multi/order:{x}' for x in ORDERS]
+              + ['multi/edited_tree_is_listed:first', 'multi/edited_tree_is_listed:second',
+                 'multi/first_listed_tree_has_the_older_timestamp', 'multi/first_listed_tree_has_the_newer_timestamp',
+                 'multi/pre_true', 'multi/pre_false',
+                 # what the family is for: a same-size modification dated after the TIMESTAMP of its own tree and
+                 # before the TIMESTAMP of the other tree of the same invocation, judged MUST, whichever is listed first
+                 'multi/mtime_between_the_two_timestamps:must:modify_same_size:edited_tree_listed_first',
+                 'multi/mtime_between_the_two_timestamps:must:modify_same_size:edited_tree_listed_second']):
+        if not c.get(k):
+            errs.append(f'vacuity: counter {k} is zero')
+    if not total.outcomes.get('multi/must/equal/edited') or not total.outcomes.get('multi/must/equal/untouched'):
+        errs.append('vacuity: multi: no MUST round ended with equal Manifests (edited / untouched tree)')
+    labels = [k for k, v in total.outcomes.items() if k.startswith('multi/') and v]
+    if len(labels) < 2:
+        errs.append(f'vacuity: multi: a single outcome class ({labels})')
+    return errs
 
 
 # ------------------------------------------------------------------ family 'inflight'
@@ -1636,6 +2008,8 @@ def replay_inflight(case, scratch):
 def replay(case, scratch):
     if case['family'] in ('hist', 'dirs', 'opts'):
         return replay_hist(case, scratch)
+    if case['family'] == 'multi':
+        return replay_multi(case, scratch)
     return replay_inflight(case, scratch)
 
 
@@ -1674,10 +2048,23 @@ def shards(tier, seed):
             for frac in FRACS:
                 for mode in ('incr', 'full'):
                     out.append(('inflight', tz, layout, frac, mode))
+    n_multi = len(multi_initial_choices())
+    for tz, depth in MULTI_PLAN[tier]:
+        for layout in LAYOUTS:
+            for order in ORDERS:
+                if depth == 1:
+                    # one-round histories are cheap: a shard plays a stride of them after one pair of creates
+                    for part in range(4):
+                        out.append(('multi', tz, layout, 0, (part, 4), 'mono', depth, order))
+                else:
+                    for first in range(n_multi):
+                        out.append(('multi', tz, layout, 0, (first, n_multi), 'mono', depth, order))
 
     def cost(s):          # rough number of gemato runs; longest first keeps the workers busy
         if s[0] == 'inflight':
             return 1000
+        if s[0] == 'multi':
+            return 12 + 6 * (n_multi // s[4][1]) * (1 if s[6] == 1 else n_multi)
         if s[0] == 'opts':
             ini = initial_choices(s[2], 'opts', s[8])
             n = len(ini)
@@ -1722,6 +2109,10 @@ def run_shard(spec, tier, seed, scratch):
         elif fam == 'opts':
             cfg.update(alpha='opts', hashes=spec[8])
             explore_hist(cfg, spec[4], spec[6], stats, scratch, max_tree_ops=spec[7])
+        elif fam == 'multi':
+            cfg.update(order=spec[7])
+            part, parts = spec[4]
+            explore_multi(cfg, list(range(part, len(multi_initial_choices()), parts)), spec[6], stats, scratch)
         else:
             explore_inflight(cfg, spec[4], stats, scratch)
     if time.localtime(T0).tm_gmtoff != off0 or gemato.cli.datetime is not _dt:
@@ -1900,6 +2291,7 @@ def finish(total, tier):
                     errs.append(f'vacuity: no in-flight edit of file slot {j} injected {text} (layout {layout})')
     errs += finish_dirs(total, tier)
     errs += finish_opts(total, tier)
+    errs += finish_multi(total, tier)
     if c.get('clock_seam_mismatch'):
         errs.append(f'clock seam: {c["clock_seam_mismatch"]} updates left a TIMESTAMP that is neither the previous '
                     'one nor the fake scan start (real time leaked, or the TIMESTAMP is not the UTC scan start); '
